@@ -154,8 +154,42 @@ def setup(top, init):
     return root
 
 
+def run_raw_script(srv, script):
+    """Requests given as raw material (XML text, body tokens, headers with $ETAG(path) placeholders); -> the raw
+    answers [{"st": code, "h": {selected headers}, "b": body (latin-1)}] (used by the response differential)."""
+    out = []
+    for rq in script:
+        headers = []
+        for k, v in rq.get("h", []):
+            m = re.match(r"^(.*)\$ETAG\(([^)]*)\)(.*)$", v)
+            if m:
+                cur = srv.request("HEAD", m.group(2))
+                et = cur["headers"].get("ETag") if cur["status"].startswith("2") else '"none"'
+                v = m.group(1) + et + m.group(3)
+            headers.append((k, v))
+        if "xml" in rq:
+            body, ct = rq["xml"].encode("utf-8"), rq.get("ct", "text/xml")
+        elif "tok" in rq:
+            name = rq["p"].rsplit("/", 1)[1] or "x.ics"
+            ct = rq.get("ct")
+            body = real_body(name, rq["tok"].encode("latin-1"), ct)
+        else:
+            body, ct = b"", rq.get("ct")
+        r = srv.request(rq["m"], rq["p"], body, ct, headers)
+        b = r["body"]
+        if rq["m"] == "GET" and r["status"].startswith("200") and not rq["p"].endswith("/"):
+            b = b"TOKEN:" + token_of(rq["p"].rsplit("/", 1)[1], b)
+        if r["status"].startswith("500"):
+            b = b""
+        keep = {k: v for k, v in r["headers"].items() if k in ("ETag", "Location", "Allow", "DAV")}
+        out.append({"st": int(r["status"].split(" ")[0]), "h": keep, "b": b.decode("latin-1")})
+    return out
+
+
 def main():
     job = json.loads(sys.stdin.read())
+    if job.get("raw"):
+        return main_raw(job)
     top = tempfile.mkdtemp(prefix="xv-e2e-")
     results = []
     try:
@@ -189,6 +223,23 @@ def main():
             # state as a restarted server sees it
             srv2 = Server(os.path.join(work, "root"))
             results.append([statuses, {"cal": listing(srv2, CAL), "ab": listing(srv2, AB)}])
+            shutil.rmtree(work, ignore_errors=True)
+    finally:
+        shutil.rmtree(top, ignore_errors=True)
+    sys.stdout.write(json.dumps(results))
+
+
+def main_raw(job):
+    top = tempfile.mkdtemp(prefix="xv-e2e-")
+    results = []
+    try:
+        base = os.path.join(top, "base")
+        os.makedirs(base)
+        setup(base, job)
+        for i, script in enumerate(job["scripts"]):
+            work = os.path.join(top, "w%d" % i)
+            shutil.copytree(base, work, symlinks=True)
+            results.append(run_raw_script(Server(os.path.join(work, "root")), script))
             shutil.rmtree(work, ignore_errors=True)
     finally:
         shutil.rmtree(top, ignore_errors=True)
